@@ -25,7 +25,7 @@ TITLE = 'tal:repeat and repeat variables'
 LEVEL = 'exploration'
 SHARDS = {'quick': 16, 'thorough': 16}
 FLOOR = {'quick': 5000, 'thorough': 30000}
-REQUIRED_MONITORS = {'positions-compared': 5000, 'M-repeat': 10000, 'nests-compared': 500, 'separators-compared': 200}
+REQUIRED_MONITORS = {'positions-compared': 5000, 'M-repeat': 10000, 'nests-compared': 500, 'separators-compared': 200, 'overlapping-renders-compared': 300}
 RULE = ('(a) every (length, position) with length 0..60 (quick) / 0..150 (thorough) plus lengths 701,702,703,3998..4001 and '
         '18278,18279 x iterable kinds {list, tuple, range, generator, dict items view, str, one-shot iterator}: distinct by '
         '(kind, length, position), non-trivial iff length >= 1; (c) generated loop nests: distinct by (iterable kinds, '
@@ -237,8 +237,15 @@ def layer_closed_forms(ctx):
 # --------------------------------------------------------------------------
 # (c) loop nests
 class Loop:
-    def __init__(self, names, kind, n, kids, tagkind):
+    def __init__(self, names, kind, n, kids, tagkind, form=0):
         self.names, self.kind, self.n, self.kids, self.tagkind = names, kind, n, kids, tagkind
+        self.form = form        # how the iterable expression is written (value-preserving wrappers)
+
+
+# value-preserving spellings of the iterable expression; N is the (first) loop variable: names local to the
+# expression (lambda parameters) may equal the loop variable without touching it
+FORMS = ['%(it)s', '(lambda %(N)s: %(N)s)(%(it)s)', '(lambda q, %(N)s=0: q)(%(it)s)', '(%(it)s if 1 else None)',
+         '(lambda: %(it)s)()']
 
 
 NAMES = ['x', 'y', 'x', 'z']
@@ -253,7 +260,7 @@ def gen_nest(rng, depth, ids):
     kind = rng.choice(['list', 'tuple', 'gen', 'iter', 'range', 'none', 'str', 'userlist', 'sizedgen']) if not tup else rng.choice(
         ['pairs', 'dictitems', 'genpairs', 'none', 'userdictitems', 'sizedgenpairs'])
     n = rng.choice([0, 1, 2, 3])
-    return Loop(names, kind, n, kids, rng.choice(['tal', 'span']))
+    return Loop(names, kind, n, kids, rng.choice(['tal', 'span']), rng.choice([0, 0, 0, 1, 2, 3, 4]))
 
 
 def make_iterable(loop, uid):
@@ -310,7 +317,8 @@ def ser_nest(loop, uid='L', scope=frozenset()):
     for j, k in enumerate(loop.kids):
         inner += ser_nest(k, uid + str(j), scope) + probe(scope)
     lead = '' if loop.tagkind == 'tal' else '\n'     # an ordinary repeated element starts on its own line
-    return lead + '<%s %s="%s it_%s()">%s</%s>' % (tag, attr, head, uid, inner, tag)
+    expr = FORMS[loop.form] % {'it': 'it_%s()' % uid, 'N': names[0]}
+    return lead + '<%s %s="%s %s">%s</%s>' % (tag, attr, head, expr, inner, tag)
 
 
 def model_nest(loop, uid, env, rep, out, alt_sticky_repeat=False, scope=frozenset()):
@@ -371,12 +379,12 @@ def model_probe(env, rep, scope=frozenset()):
 
 
 def to_spec(loop):
-    return [list(loop.names), loop.kind, loop.n, loop.tagkind, [to_spec(k) for k in loop.kids]]
+    return [list(loop.names), loop.kind, loop.n, loop.tagkind, [to_spec(k) for k in loop.kids], loop.form]
 
 
 def from_spec(spec):
-    names, kind, n, tagkind, kids = spec
-    return Loop(tuple(names), kind, n, [from_spec(k) for k in kids], tagkind)
+    names, kind, n, tagkind, kids = spec[:5]
+    return Loop(tuple(names), kind, n, [from_spec(k) for k in kids], tagkind, spec[5] if len(spec) > 5 else 0)
 
 
 def nest_case(root):
@@ -395,7 +403,7 @@ def nest_case(root):
 
 
 def nest_shape(loop):
-    return (loop.names, loop.kind, min(loop.n, 2), loop.tagkind, tuple(nest_shape(k) for k in loop.kids))
+    return (loop.names, loop.kind, min(loop.n, 2), loop.tagkind, loop.form, tuple(nest_shape(k) for k in loop.kids))
 
 
 def collect(loop, uid, table):
@@ -470,12 +478,53 @@ def layer_separator(ctx, n):
                           {'kind': 'sep', 'src': src, 'n': length})
 
 
+# --------------------------------------------------------------------------
+# (e) overlapping renders: a template rendered from inside a loop body (another template, or the same one
+#     recursively through the 'template' builtin) runs a loop over the same variable name; afterwards the
+#     interrupted loop must still report its own position
+def layer_reentrant(ctx, n):
+    from chameleon import PageTemplate
+    rng = ctx.rng
+    inner = PageTemplate('<tal:i repeat="x xs"><i>${x}:${repeat.x.number}/${repeat.x.length}</i></tal:i>')
+    for _ in range(n):
+        n_out, n_in = rng.randint(1, 4), rng.randint(0, 5)
+        mode = rng.choice(['other-template', 'recursive'])
+        pos = '${repeat.x.index}/${repeat.x.length}/${repeat.x.end}/${repeat.x.letter}'
+        if mode == 'other-template':
+            src = '<r><tal:r repeat="x outer">[${x} %s ${structure: inner(xs=ins)} %s]</tal:r></r>' % (pos, pos)
+        else:
+            src = ('<r tal:omit-tag="depth"><tal:r repeat="x outer">[${x} %s '
+                   '${structure: template(depth=depth + 1, outer=ins, ins=()) if not depth else \'\'} %s]</tal:r></r>' % (pos, pos))
+        outer = ['o%d' % i for i in range(n_out)]
+        ins = ['n%d' % i for i in range(n_in)]
+
+        def P(i, m):
+            return '%d/%d/%d/%s' % (i, m, int(i == m - 1), letter(i))
+        if mode == 'other-template':
+            mid = ''.join('<i>%s:%d/%d</i>' % (v, j + 1, n_in) for j, v in enumerate(ins))
+        else:
+            mid = ''.join('[%s %s  %s]' % (v, P(j, n_in), P(j, n_in)) for j, v in enumerate(ins))
+        want = '<r>' + ''.join('[%s %s %s %s]' % (v, P(i, n_out), mid, P(i, n_out)) for i, v in enumerate(outer)) + '</r>'
+        try:
+            got = PageTemplate(src)(outer=outer, ins=ins, inner=inner, depth=0)
+        except Exception as e:
+            got = 'RAISED %s: %s' % (type(e).__name__, str(e).split('\n')[0][:100])
+        ctx.mon('overlapping-renders-compared')
+        ctx.case(key=('reentrant', mode, n_out, min(n_in, 3)), nontrivial=n_in > 0)
+        if got != want:
+            ctx.violation('overlapping-render-disturbs-repeat:' + mode,
+                          'template %r with outer=%r ins=%r\n  rendered %r\n  expected %r' % (src, outer, ins, got, want),
+                          {'kind': 'reentrant', 'src': src, 'outer': outer, 'ins': ins})
+
+
+
 def run(ctx):
     monitors.install(ctx, tokalg=False)
     install_repeat_contract(ctx)
     layer_closed_forms(ctx)
     layer_nests(ctx, 150 if ctx.quick else 3000)
     layer_separator(ctx, 60 if ctx.quick else 1500)
+    layer_reentrant(ctx, 40 if ctx.quick else 600)
 
 
 def replay(data):
